@@ -156,6 +156,69 @@ def _eval_guard(pc, at_, state_atoms, attr, absval):
 MUTATORS = ("add", "update", "discard", "remove", "clear", "pop", "difference_update", "intersection_update", "symmetric_difference_update", "append", "extend", "setdefault", "popitem")
 
 
+def _persisted_verification(ctx, repo, fi, n, chk):
+    """`self.<state> = self.<reader>()` where <reader> looks a flag up in the shank meta files.  The flag is a valid witness of a verification of the files
+    that are on disk NOW when (a) it is only ever written from check_NP24 after the asserting loop, and (b) every step that starts rewriting the shank
+    files removes the flag first (the prepare step unlinks the shank metas before it opens the binaries for writing).  -> True | reason string | None"""
+    if not (isinstance(n, ast.Assign) and isinstance(n.value, ast.Call)):
+        return None
+    q = repo.resolve_call(fi, n.value)
+    if not (q and repo.has_fn(q)):
+        return None
+    reader = repo.fn(q)
+    keys = [c.args[0].value for c in find(reader.node, ast.Call) if call_name(c) == "get" and c.args and isinstance(c.args[0], ast.Constant) and isinstance(c.args[0].value, str)]
+    keys = [k for k in keys if "verif" in k or "check" in k]
+    if not keys or "read_meta_data" not in src(reader.node):
+        return None
+    key = keys[0]
+    # (a) writers of the flag
+    writers = []
+    for m in _methods(repo, CLS):
+        for st in walk_function(m.node):
+            if isinstance(st, ast.Assign) and isinstance(st.targets[0], ast.Subscript) and const_value(st.targets[0].slice) == (True, key):
+                writers.append((m, st))
+    if not writers:
+        return f"the flag `{key}` it reads is never written"
+    cfgc = CFG(chk.node)
+    loops = [x for x in walk_function(chk.node) if isinstance(x, ast.For) and "firstlast" in src(x.iter)]
+    for m, st in writers:
+        calls = [c for c in find(chk.node, ast.Call, nested=False) if repo.resolve_call(chk, c) == m.qualname]
+        others = [mm.qualname for mm in _methods(repo, CLS) if mm.qualname not in (chk.qualname, m.qualname)
+                  for c in find(mm.node, ast.Call, nested=False) if repo.resolve_call(mm, c) == m.qualname]
+        if m.qualname != chk.qualname and not calls and not others:
+            continue          # a helper that was inlined into its callers: its body is judged where it now stands
+        if m.qualname != chk.qualname and (not calls or others):
+            return f"the flag `{key}` is written by {m.qualname.rsplit('.', 1)[1]}, which is not called only from check_NP24"
+        anchor = st if m.qualname == chk.qualname else calls[0]
+        if not loops or not cfgc.must_pass([cfgc.node_for(loops[0])], cfgc.node_for(anchor)) or any(x is anchor for b in loops[0].body for x in ast.walk(b)):
+            return f"the flag `{key}` is written before / inside the verification loop"
+    # (b) invalidation before the shank files are rewritten
+    from rules import np2 as _np2
+    for pq in _np2.PREPARE[:1]:
+        pf = repo.fn(pq)
+        cfgp = CFG(pf.node)
+        wr = [c for kind, _, c in _np2.file_effects(pf) if kind in ("truncate", "append") and call_name(c) != "unlink"]
+        inval = []
+        for c in find(pf.node, ast.Call, nested=False):
+            if call_name(c) == "unlink":
+                r_ = c.func.value if isinstance(c.func, ast.Attribute) else None
+                t_ = src(r_) if r_ is not None else ""
+                du_ = DefUse(pf.node)
+                rv = expand_name(du_, r_, c) if isinstance(r_, ast.Name) else r_
+                loopvar = any(isinstance(x, ast.For) and loc_name(x.target) == loc_name(r_) and ".meta" in src(x.iter) for x in walk_function(pf.node))
+                if ".meta" in t_ or ".meta" in src(rv) or loopvar:
+                    inval.append(c)
+        if not wr:
+            continue
+        if not inval:
+            return (f"the flag `{key}` stays in the shank meta files while {pq.rsplit('.', 1)[1]} truncates the shank binaries for a forced re-run: if that run is interrupted, "
+                    "the next run finds partial files next to metas that still say 'verified' and deletes the original")
+        for w_ in wr:
+            if not any(cfgp.reachable(cfgp.node_for(i_), cfgp.node_for(w_)) for i_ in inval):
+                return f"`{src(w_)[:50]}` rewrites a shank file before the stale flag `{key}` is removed"
+    return True
+
+
 def d2_typestate(ctx):
     ctx.rule("D2", "the state that allows deleting the original (the deletion guard) is false after init_params and can only become true in check_NP24, after the asserting "
                    "verification loop over full windows")
@@ -205,7 +268,12 @@ def d2_typestate(ctx):
                 ctx.ok(fi, n, n, "leaves / enters the 'not verified' state", key="false:" + fi.qualname + ":" + norm(n)[:30])
                 continue
             if fi.qualname != chk.qualname:
-                ctx.violation(fi, n, n, f"`{src(n)[:60]}` can put the converter into the 'verified' state outside check_NP24: deletion could run without verification",
+                pv = _persisted_verification(ctx, repo, fi, n, chk)
+                if pv is True:
+                    ctx.shared["C04.persisted_ok"] = True
+                    continue
+                ctx.violation(fi, n, n, f"`{src(n)[:60]}` can put the converter into the 'verified' state outside check_NP24: deletion could run without verification"
+                              + (f" - {pv}" if isinstance(pv, str) else ""),
                               key="true-outside:" + fi.qualname, name_free=True)
                 continue
             cfg = CFG(fi.node)
@@ -322,6 +390,9 @@ def d3_unlink_tolerant(ctx):
                 root = chain_root(r)[0]
                 if loc_name(r) in ("self.ap_file", "self.save_file"):
                     established, why = True, "file owned and opened by this object"
+                elif isinstance(r, ast.Name) and any(isinstance(x, ast.For) and loc_name(x.target) == r.id and "glob(" in src(x.iter) and any(y is c for y in ast.walk(x))
+                                                      for x in walk_function(fi.node)):
+                    established, why = True, "path yielded by glob(): it exists"
                 elif _existence_witness(repo, fi, du, cfg, r, c):
                     established, why = True, "opened / stat'ed on every path before"
                 elif isinstance(r, ast.Name):
@@ -362,6 +433,9 @@ def d4_skip_paths(ctx):
             ctx.check(ret0, fi, fi.node, f"if {flag}: return 0", f"`{flag}` short-circuits with status 0",
                       f"the `{flag}` skip path (return 0) is missing: a repeated run would redo / overwrite work", key=f"skip:{flag}")
             bad = [c for c in calls if not any(loc_name(t) == flag and not pol for t, pol in _guards(cfg, cfg.node_for(c)))]
+            if ctx.shared.get("C04.persisted_ok"):
+                # a deferred deletion of the original on the strength of a valid persisted verification (D2) is not a processing step of this run
+                bad = [c for c in bad if call_name(c) not in ("delete_NP24", "delete_NP21")]
             ctx.check(not bad, fi, bad[0] if bad else fi.node, f"{len(calls)} effect calls under not {flag}",
                       f"every processing step runs only when not {flag}",
                       f"`{src(bad[0]) if bad else ''}` can run although {flag} is set", key=f"dominate:{flag}")
